@@ -89,7 +89,7 @@ def explore(pid, cases, rep, nontrivial, extra_checks=(), keep=None, use_corpus=
     if pid in SIDE_PROPS:
         acc = [i for i, m in enumerate(mods) if isinstance(m, list) and m and m[0] == "ok"]
         sides = common.run_model([modelio.request(cases[i][0], cmd="side") for i in acc]) if acc else []
-        names = ["names_sep_req", "names_sep_rsp", "single_attach", "links_typed", "degrees_fit"]
+        names = ["names_sep_req", "names_sep_rsp", "names_sep_wide", "single_attach", "links_typed", "degrees_fit"]
         for i, sd in zip(acc, sides):
             if isinstance(sd, list) and sd and sd[0] == "ok":
                 flags = [b is True for b in sd[1:]]
